@@ -160,16 +160,50 @@ def pick_received(rng, K, R, pattern):
     return [i for t, i in pick if t == 'o'], [j for t, j in pick if t == 'r']
 
 
-def roundtrip_case(cid, rng, codec, engine, K, R, sb, seed, pattern, probes=False, dec_codec=None, dec_engine=None):
+def earlier_round(rng, codec, engine, both=True):
+    """a complete round in another small configuration on the objects that the measured round then reuses through reset
+    (C01/C02 quantify over reused objects and recycled working space as well as fresh ones)"""
+    while True:
+        K0, R0 = rng.randint(1, 9), rng.randint(1, 9)
+        if codec in codecs_for(K0, R0):
+            break
+    sb0 = rng.choice([2, 64, 66, 130])
+    seed0 = rng.randint(1, 10 ** 6)
+    ops = ['E.new %s %s %d %d %d' % (codec, engine, K0, R0, sb0)] + ['E.add ' + orig_tok(seed0, i, sb0) for i in range(K0)] + ['E.encode -']
+    if both:
+        os_, rs = pick_received(rng, K0, R0, rng.choice(['maxloss', 'exactK', 'burst']))
+        ops.append('D.new %s %s %d %d %d' % (codec, engine, K0, R0, sb0))
+        adds = ['D.addo %d @o%d' % (i, i) for i in os_] + ['D.addr %d @r%d' % (j, j) for j in rs]
+        t = rng.random()
+        if t < 0.4:
+            # the earlier round is abandoned: too few shards, given up with or without a (failing) decode
+            adds = adds[:rng.randint(0, K0 - 1)]
+            ops += adds + (['D.decode -'] if t < 0.2 else [])
+        else:
+            ops += adds + ['D.decode -']
+    return ops
+
+
+def roundtrip_case(cid, rng, codec, engine, K, R, sb, seed, pattern, probes=False, dec_codec=None, dec_engine=None, reuse=False):
     os_, rs = pick_received(rng, K, R, pattern)
-    ops = ['E.new %s %s %d %d %d' % (codec, engine, K, R, sb)]
+    reuse = reuse and dec_codec is None and dec_engine is None
+    first_idx = 0
+    if reuse:
+        ops = earlier_round(rng, codec, engine)
+        first_idx = len(ops)
+        ops.append('E.reset %d %d %d' % (K, R, sb))
+    else:
+        ops = ['E.new %s %s %d %d %d' % (codec, engine, K, R, sb)]
     ops += ['E.add ' + orig_tok(seed, i, sb) for i in range(K)]
     eprobe = '-'
     if probes:
         eprobe = ','.join(str(x) for x in sorted(set([0, R - 1, R, R + 1, 2 ** 32, 2 ** 64 - 1])))
     ops.append('E.encode ' + eprobe)
     enc_idx = len(ops) - 1
-    ops.append('D.new %s %s %d %d %d' % (dec_codec or codec, dec_engine or engine, K, R, sb))
+    if reuse:
+        ops.append('D.reset %d %d %d' % (K, R, sb))
+    else:
+        ops.append('D.new %s %s %d %d %d' % (dec_codec or codec, dec_engine or engine, K, R, sb))
     adds = [('o', i) for i in os_] + [('r', j) for j in rs]
     rng.shuffle(adds)
     for t, i in adds:
@@ -182,7 +216,7 @@ def roundtrip_case(cid, rng, codec, engine, K, R, sb, seed, pattern, probes=Fals
         dprobe = ','.join(str(x) for x in sorted(set([0, K - 1, K, K + 1, 2 ** 32, 2 ** 64 - 1])))
     ops.append('D.decode ' + dprobe)
     meta = dict(codec=codec, engine=engine, K=K, R=R, sb=sb, seed=seed, pattern=pattern,
-                given_o=sorted(os_), given_r=sorted(rs), enc_idx=enc_idx, dec_idx=len(ops) - 1)
+                given_o=sorted(os_), given_r=sorted(rs), enc_idx=enc_idx, dec_idx=len(ops) - 1, reused=bool(reuse), first_idx=first_idx)
     return Case(cid, ops, meta)
 
 
